@@ -313,23 +313,28 @@ def insert (P : Params) (s : Proc) (d : Bytes) (new : Chunk) (done : List Chunk)
 
 /-! #### backend.c -/
 
+/-- `size | (compressed ? 0 : 1 << 24)`: the block size word stored in inodes and in the fragment table -/
+def sizeWord (b : Blk) : Nat :=
+  if hasFlag b.flags blkIsCompressed then b.data.length else b.data.length ||| (1 <<< 24)
+
+/-- backend.c:88-123: what `process_completed_block` records about a block that was written at `loc` -/
+def recordBlock (w : W) (b : Blk) (loc : Nat) : Except Err W :=
+  if hasFlag b.flags blkIsSparse then
+    .ok (modInode w b.inode (fun i =>
+      ({ i with extended := true, sparse := i.sparse + b.data.length } : Inode).setBlockSize b.index 0))
+  else if b.data.length != 0 then
+    if hasFlag b.flags blkFragmentBlock then
+      if b.index < w.fragTbl.length then .ok { w with fragTbl := w.fragTbl.set b.index (loc, sizeWord b) }
+      else .error .outOfBounds                                      -- `array_set` beyond `used`
+    else .ok (modInode w b.inode (fun i => i.setBlockSize b.index (sizeWord b)))
+  else .ok w
+
 /-- the part of `process_completed_block` after the in-flight copy is dropped: everything it does to `W` -/
 def completeBlock (w : W) (b : Blk) : Except Err W :=
-  let wflags := clearFlag b.flags blkFlagInternal
-  match BlockWriter.writeDataBlock w.wr b.chk wflags b.data with
+  match BlockWriter.writeDataBlock w.wr b.chk (clearFlag b.flags blkFlagInternal) b.data with
   | .error e => .error (.writer e)
   | .ok (wr', loc) =>
-    let w1 : W := { w with wr := wr', calls := w.calls ++ [⟨b.chk, wflags, b.data⟩] }
-    match (if hasFlag b.flags blkIsSparse then
-             (.ok (modInode w1 b.inode (fun i =>
-               ({ i with extended := true, sparse := i.sparse + b.data.length } : Inode).setBlockSize b.index 0)) : Except Err W)
-           else if b.data.length != 0 then
-             let size := if hasFlag b.flags blkIsCompressed then b.data.length else b.data.length ||| (1 <<< 24)
-             if hasFlag b.flags blkFragmentBlock then
-               if b.index < w1.fragTbl.length then .ok { w1 with fragTbl := w1.fragTbl.set b.index (loc, size) }
-               else .error .outOfBounds                                -- `array_set` beyond `used`
-             else .ok (modInode w1 b.inode (fun i => i.setBlockSize b.index size))
-           else .ok w1) with
+    match recordBlock { w with wr := wr', calls := w.calls ++ [⟨b.chk, clearFlag b.flags blkFlagInternal, b.data⟩] } b loc with
     | .error e => .error e
     | .ok w2 =>
       .ok (if hasFlag b.flags blkLastBlock then modInode w2 b.inode (fun i => { i with start := loc }) else w2)
